@@ -301,8 +301,17 @@ def behaviour(rng, flavour):
             # a single and_then tree with an absent half directly on the registry (outside the shape of finding F17)
             none = {"e": "opt", "inner": None}
             x = rng.choice([rec(nm, rng), filtered(nm, rng), filtered(nm, rng)])
-            a, b = rng.choice([(none, x), (x, none)])
+            # ... or with one per-layer-filtered and one unfiltered half, alone on the registry (the unfiltered half keeps the tree from
+            # counting as per-layer-filtered, whichever half it is)
+            a, b = rng.choice([(none, x), (x, none), (rec(nm, rng), filtered(nm, rng)), (filtered(nm, rng), rec(nm, rng))])
             elems = [{"e": "and_then", "a": a, "b": b}]
+        elif rng.random() < 0.08:
+            # an absent layer ABOVE a stack that has a real hint and an unfiltered receiver, below a less verbose per-layer-filtered
+            # layer: the inner half of the top Layered contains a None, but its hint is not OFF
+            lv = rng.choice([3, 4, 5])
+            elems = ([{"e": "gfilter", "f": {"k": "level", "l": lv}}] if rng.random() < 0.7 else []) + [rec(nm, rng)]
+            elems.append(rng.choice([{"e": "opt", "inner": None}, {"e": "box", "inner": {"e": "opt", "inner": None}}]))
+            elems.append({"e": "filtered", "f": {"k": "level", "l": rng.choice([1, 2])}, "inner": rec(nm, rng)})
         elif rng.random() < 0.15:
             # hint mixtures: per-layer-filtered layers of different verbosity, some of them inside a Vec next to an absent
             # member (the Vec then answers the none-marker query), in every order
